@@ -119,7 +119,9 @@ func (pi *PathIterator[_]) ReplacePart(newPath string) bool {
 	oldPath := pi.path
 
 	if vfs.IsAbs(newPath) {
+		// an absolute path can name another volume.
 		pi.path = vfs.Join(newPath, oldPath[pi.end:])
+		pi.volumeNameLen = VolumeNameLen(vfs, pi.path)
 	} else {
 		pi.path = vfs.Join(oldPath[:pi.start], newPath, oldPath[pi.end:])
 	}
